@@ -434,8 +434,24 @@ func totalCase(rep *Report, s *glue.Subject, d MD, idx int, S uint64) {
 		rep.Violate("C06", "total/unmarshal-panic/"+class, tn, fmt.Sprintf("Unmarshal(variant %d) panics on %d-byte input %s: %s", variant, len(in), hx(in), pmsg), rc)
 		return
 	}
-	if a1-a0 > bound {
-		rep.Violate("C06", "total/allocation/"+class, tn, fmt.Sprintf("Unmarshal of %d bytes allocated %d bytes (bound %d)", len(in), a1-a0, bound), rc)
+	used := a1 - a0
+	if used > bound {
+		// the meter is process-wide (other goroutines of the harness and the runtime's batched accounting add
+		// noise of about a megabyte now and then): an excess counts only if it repeats on two more decodes of the
+		// same input into fresh messages
+		// (only excesses of noise size are measured again: a decode that allocates tens of megabytes is not noise)
+		for again := 0; again < 2 && used > bound && used-bound < 4<<20; again++ {
+			m2 := newOf(s.Zero)
+			b0 := allocBytes()
+			safely(func() { _ = proto.UnmarshalOptions{AllowPartial: true}.Unmarshal(in, m2) })
+			if d := allocBytes() - b0; d < used {
+				used = d
+			}
+			rep.Count("C06", "allocation-remeasured", 1)
+		}
+	}
+	if used > bound {
+		rep.Violate("C06", "total/allocation/"+class, tn, fmt.Sprintf("Unmarshal of %d bytes allocated %d bytes (bound %d; smallest of three measurements)", len(in), used, bound), rc)
 		// give the memory back at once: many such cases in a row would otherwise push the process over its memory
 		// guard before the report is written
 		m = nil
